@@ -92,4 +92,14 @@ def jobs():
                               tier="quick" if (num in (9, 23, 12, 4, 11) or ln == maxlen) else "thorough",
                               desc="coap_show_pdu on a message whose %s option has %d symbolic value bytes (exact-size PDU)" % (name, ln),
                               bounds={"option": num, "value_length": ln, "payload": payload}))
+    # peer-controlled block numbers drive the fixed 4-entry range table of a transfer (anchor: rec_blocks ranges[4]): the C09 step harness
+    # decides that update_received_blocks never writes outside the table from ANY well-formed table (CBMC bounds obligations + invariant)
+    import copy
+    from jobs.C09 import jobs as c09_jobs
+    for j in c09_jobs():
+        if j.group == "S1-received-blocks":
+            j2 = copy.copy(j)
+            j2.name = "blocks-" + j.name
+            j2.group = "blocks-range-table"
+            js.append(j2)
     return js
